@@ -23,6 +23,9 @@ EXPLANATION = (
   " (ORD-rows) the row dictionary of a caption is read through sorted(...) wherever the order of rows matters (the tabled order-free iterations aside);"
   " (STATE-alias / STATE-global) no function of the anchored modules mutates a module- or class-level container, rebinds module / class state or mutates a mutable default argument, so a result never depends on earlier calls;"
   " (FIN-dropframe) the frame arithmetic behind ';' time codes agrees with SMPTE ST 12-1 labels on the frame counts around every minute boundary of the first 22 minutes and the hour, for 30000/1001 and 60000/1001;"
+  ' (SWAP) End Of Caption exchanges the buffered and the displayed caption: after the branch each holds what the other held;'
+  ' (COPY-lines) roll-up carries the caption lines over into the new caption as copies, never the line objects themselves;'
+  ' (FIN-rollup) the number of lines kept when a roll-up caption rolls is depth - 1 for every depth RU2, RU3, RU4;'
 )
 RULE_TEXT = "per code class, per control code, per decoder-state call, per style property x caption style"
 UNDECIDED = ["everything the statement says about *what is displayed when*: pop-on flip, roll-up window depth, paint-on accumulation, cursor / backspace arithmetic, "
@@ -121,21 +124,49 @@ def check_channel_and_frames(ctx):
               f"`{short(c, 60)}` is reachable for words that do not belong to channel 1: channel-2 data would be decoded into the captions")
   # the channel of a code word comes from the word itself; the channel of text from the last code word
   body = lp.body
-  # DUP
-  first = body[0]
-  conj = set()
-  if isinstance(first, ast.If):
-    for part in (first.test.values if isinstance(first.test, ast.BoolOp) and isinstance(first.test.op, ast.And) else [first.test]):
-      if match.is_none_test(part, lambda e: unparse(e) == f"{CX}.previous_word") is False:
-        conj.add("not-none")
-      elif match.relation(part, lambda e: unparse(e) == f"{CX}.previous_word.value", lambda e: unparse(e) == f"{W}.value") == "==":
-        conj.add("same-value")
-      elif unparse(part) == f"{CX}.previous_word.is_code()":
-        conj.add("is-code")
-      else:
-        conj.add("other:" + short(part, 40))
-  ok = isinstance(first, ast.If) and conj == {"not-none", "same-value", "is-code"} \
-    and any(isinstance(x, ast.Assign) and unparse(x) == f"{CX}.previous_word = None" for x in first.body) and isinstance(first.body[-1], ast.Continue)
+  # DUP: the skip condition, read as a boolean function of (previous word is None, same value, previous word is a
+  # code) and evaluated with short-circuit order on all eight assignments, must be  not None and same and code,
+  # and must never read the previous word's fields when there is none
+  import itertools
+  pw = f"{CX}.previous_word"
+  first = next((st for st in body if isinstance(st, ast.If) and "previous_word" in unparse(st.test)), None)
+  ok = False
+  if first is not None and not any(isinstance(t, ast.Attribute) and t.attr == "previous_word" and isinstance(t.ctx, ast.Store)
+                                   for st in body[:body.index(first)] for t in ast.walk(st)):
+    test = match.inline_single_locals(lp, first.test)
+
+    def leaf(e):
+      nt = match.is_none_test(e, lambda x: unparse(x) == pw)
+      if nt is not None:
+        return ("none", nt)
+      r = match.relation(e, lambda x: unparse(x) == f"{pw}.value", lambda x: unparse(x) == f"{W}.value")
+      if r in ("==", "!="):
+        return ("same", r == "==")
+      if unparse(e) == f"{pw}.is_code()":
+        return ("code", True)
+      return None
+    ok = True
+    try:
+      for none, same, code in itertools.product((False, True), repeat=3):
+        def val(atom, none=none, same=same, code=code):
+          if atom == "none":
+            return none
+          if none:
+            raise match.AtomError(atom)
+          return same if atom == "same" else code
+        try:
+          got = match.eval_bool(test, leaf, val)
+        except match.AtomError:
+          got = None
+        if got != ((not none) and same and code):
+          ok = False
+    except ValueError as e:
+      raise AnalysisError(f"duplicate-suppression test has a part that is not recognised: `{e}`")
+    ok = ok and any(isinstance(x, ast.Assign) and unparse(x) == f"{pw} = None" for x in first.body) and isinstance(first.body[-1], ast.Continue)
+  elif first is not None:
+    raise AnalysisError("the previous word is rewritten before the duplicate-suppression test")
+  else:
+    first = lp
   ctx.check(ok, "DUP", f"{f.qualname}|doubled control codes act once", ctx.where(f.module, first), "same value as the previous *code* word: forget it and skip",
             "the duplicate-suppression step changed: it must skip a word only if the previous word is a control code with the same value, and then forget the previous word")
   remembered = any(isinstance(x, ast.Assign) and unparse(x) == f"{CX}.previous_word = {W}" and parent(x) is lp for x in body)
